@@ -118,7 +118,18 @@ def check(run, ctx):
         n_l7 += 1
         sym = f.qual.replace("src.", "", 1)
         what = "steps over siblings (prev_sibling/next_sibling)" if steps else f"takes `{norm(picks[0])}`"
-        if kinds & COMMENT_KINDS:
+        # the comment kinds that can stand between siblings in this module's grammar (doc_comment is only ever a child of line/block comments)
+        from .. import kinds as _kinds
+        lang = _kinds.module_language(f.module.name)
+        sibling_comments = {"rust": {"line_comment", "block_comment"}, "typescript": {"comment"}}.get(lang, set())
+        sibling_comments = {k for k in sibling_comments if k in ctx.grammar[lang].named} if lang else set()
+        split = _comments_skipped_in_another_loop(repo, f, COMMENT_KINDS) if steps else None
+        if kinds & COMMENT_KINDS and sibling_comments and not sibling_comments <= kinds:
+            miss = sorted(sibling_comments - kinds)
+            run.finding(L7, sym, f"comment-kinds-missing:{miss}", f"{f.qual} {what} and steps over {sorted(kinds & COMMENT_KINDS)} but not over {miss}: the {lang} grammar places {sorted(sibling_comments)} between siblings, so a `/* ... */` (or `//`) comment inserted between an attribute and its item ends the scan and changes which construct the rule sees", f"{f.module.rel}:{(steps or picks)[0].lineno}")
+        elif kinds & COMMENT_KINDS and split:
+            run.finding(L7, sym, "comments-skipped-before-not-between", f"{f.qual} skips comments in one loop and collects `{split}` siblings in a second loop that stops at the first other node: a comment standing between two attributes ends the scan, so the attributes above it (#[cfg(test)], #[test]) are not seen", f"{f.module.rel}:{steps[0].lineno}")
+        elif kinds & COMMENT_KINDS:
             run.ok(L7, sym, f"{what} and handles {sorted(kinds & COMMENT_KINDS)}")
         else:
             w = steps[0] if steps else picks[0]
@@ -220,3 +231,26 @@ def _lookup_arithmetic(f):
     except (ValueError, KeyError, TypeError):
         return None
     return True
+
+
+def _comments_skipped_in_another_loop(repo, f, comment_kinds):
+    """A sibling walk that collects nodes of one kind (`.append(sib)` under `sib.type == K`) must tolerate comments in the
+    same loop.  Returns K when the collecting loop never mentions a comment kind although another loop of the function does."""
+    def kinds_in(node):
+        out = set()
+        for n in ast.walk(node):
+            if isinstance(n, ast.Compare) and isinstance(n.left, ast.Attribute) and n.left.attr == "type":
+                for c_ in n.comparators:
+                    v = repo.fold(f.module, c_)
+                    out |= {v} if isinstance(v, str) else set(v) if isinstance(v, (tuple, list, set, frozenset)) else set()
+        return out
+    loops = [n for n in ast.walk(f.node) if isinstance(n, (ast.While, ast.For))]
+    loops = [l for l in loops if any(isinstance(x, ast.Attribute) and x.attr in ("prev_sibling", "next_sibling") for x in ast.walk(l))]
+    if len(loops) < 2:
+        return None
+    for l in loops:
+        collects = any(isinstance(x, ast.Call) and call_name(x) in ("append", "add", "insert") for x in ast.walk(l))
+        ks = kinds_in(l)
+        if collects and ks and not ks & comment_kinds and any(kinds_in(o) & comment_kinds for o in loops if o is not l):
+            return sorted(ks)[0]
+    return None
